@@ -22,7 +22,7 @@ import (
 const c05Tol = 2e-6
 
 func init() {
-	min := map[string]int64{"reset_before_setrasterizer": 5000, "rectangle_changed_after_reset": 5000, "lattice_mode": 5000, "lattice_operand_equals_pen_pixels": 5000, "paths": 10000, "ops": 100000, "draws": 10000, "smooth_reflected": 1000, "smooth_from_pen": 1000, "rel_move_after_close": 1000, "nonsquare_maps": 5000, "offset_rects": 5000}
+	min := map[string]int64{"reset_before_setrasterizer": 5000, "rectangle_changed_after_reset": 5000, "renderer_used_for_an_earlier_graphic": 5000, "lattice_mode": 5000, "lattice_operand_equals_pen_pixels": 5000, "paths": 10000, "ops": 100000, "draws": 10000, "smooth_reflected": 1000, "smooth_from_pen": 1000, "rel_move_after_close": 1000, "nonsquare_maps": 5000, "offset_rects": 5000}
 	for _, a := range gen.NonArcVerbs {
 		for _, b := range gen.NonArcVerbs {
 			min["pair/"+a.String()+">"+b.String()] = 50
@@ -145,7 +145,13 @@ func c05Run(c *run.Ctx, cfg c05Config, ops []rec.Op) bool {
 	var z render.Renderer
 	// the map from viewBox to rectangle is established by SetRasterizer and
 	// Reset in either order, and again when the rectangle changes afterwards
-	switch (uint64(cfg.rect.Dx())*31 + uint64(len(ops))) % 4 {
+	switch (uint64(cfg.rect.Dx())*31 + uint64(len(ops))) % 5 {
+	case 4:
+		z.SetRasterizer(rz, cfg.rect)
+		earlierGraphic(&z, cfg.vb)
+		rz.ResetLog()
+		z.Reset(cfg.vb, ivg.DefaultPalette)
+		c.Count("renderer_used_for_an_earlier_graphic", 1)
 	case 0:
 		z.Reset(cfg.vb, ivg.DefaultPalette)
 		z.SetRasterizer(rz, cfg.rect)
